@@ -26,6 +26,9 @@ CHECKS = {
     "C06": _c("exploration",
               "Metamorphic: one dataflow wired under several admissible statement orders (incl. consumer-before-producer via delayed bindings) must give identical user-code runs and streams (pairwise and vs the model); exact duplicate sub-expressions may share (instance count 1 or 2, outputs unchanged), wirings differing in exactly one input or one scalar and duplicated sinks must stay distinct (instance counts from start logs).",
               "DESIGN.md section 3 C06", TRUST, "runtime monitoring: metamorphic differential over wiring orders + instance counting"),
+    "C07": _c("exploration",
+              "Each case's complete trace (lifecycle events, user-code logs incl. GlobalState reads/writes, endpoint dumps) must be byte-identical across: a fresh process; a random position in a shuffled sequence of other cases in one process; three runs from one reused GraphExecutorBuilder; busy-waits injected into user code; 8 executors running concurrently on threads (two shuffles). Thorough tier repeats the concurrent batches under a -fsanitize=thread build of the tree and treats any report with an hgraph frame as a violation.",
+              "DESIGN.md section 3 C07", TRUST + " Wiring is serialised by the harness in threaded contexts (concurrent wiring is not claimed by the code base).", "runtime monitoring: differential trace equality across process histories/threads + ThreadSanitizer"),
     "C08": _c("exploration",
               "Sequence oracle on recorded streams: for every feedback edge the reader stream must equal [(start, init)] ++ [(t+1, v) for each producer tick (t, v) with t+1<end] - no loss, duplicate, reorder, same-cycle delivery; plus model equality of all runs and of the cycle set (passive-reader loops become quiescent).",
               "DESIGN.md section 3 C08", TRUST, "runtime monitoring: offline stream checker (shift-by-one-step) + reference model"),
@@ -64,6 +67,9 @@ CHECKS = {
         note="Trusts vp/model.py as reading of the documented semantics, the g++-12 -O1 tree build with harness-side shims, and truthful harness nodes.",
         technique="runtime monitoring: instrumented-node trace vs executable reference model (offline checker)",
     ),
+    "C19": _c("exploration",
+              "Overload families (subsets of a 25-signature pool) are registered as data on a reset OperatorRegistry in every permutation (<= 4 candidates) or sampled orders and resolved against argument tuples from 15 schemas. The outcome must be identical in every order, consistent with the singleton resolutions of the same candidates (no match iff none matches alone; unique minimum rank wins; tie => ambiguity error), agree with an independent unifier (match decision, one binding per variable, output == substitution) and never select a candidate that is strictly subsumed by another matching one.",
+              "DESIGN.md section 3 C19", TRUST, "runtime monitoring: conformance of the real resolver against an independent unifier + permutation metamorphic test", engine="hgunit"),
     "C20": _c("exploration",
               "Three-stage chain per (shape, history): source -> mirror + dense_record R1 (+ two in-graph capture_delta/apply_delta copies with mirrors); replay(R1) -> mirror + record R2; replay(R2) -> mirror + record R3, GlobalState carried by the harness. A structural differ compares every reproduction tick with the original (values, added/removed/modified parts, flags, canonical delta modulo ordering) and the recorded buffers entry by entry; the only tolerated deviations are the three recorded known findings, each recognised by its own predicate.",
               "DESIGN.md section 3 C20", TRUST, "runtime monitoring: record/replay chain differential + buffer comparison"),
@@ -100,7 +106,9 @@ def main():
             "add_only": True,
         },
         "engines": [
-            {"name": "hgdrive", "path": "harness/hgdrive.cpp", "serves_properties": sorted(CHECKS),
+            {"name": "hgunit", "path": "harness/hgunit.cpp", "serves_properties": ["C18", "C19"],
+             "kind_free_text": "C++ unit drivers over header-level state machines of the tree (NodeScheduler on a bare state; data-driven OperatorRegistry families)"},
+            {"name": "hgdrive", "path": "harness/hgdrive.cpp", "serves_properties": sorted(k for k in CHECKS if k != "C19"),
              "kind_free_text": "C++ simulation driver linked against the tree compiled from /repo; interprets generated programs, logs lifecycle + instrumented-node traces; Python offline monitors (vp/)"},
         ],
         "checks": checks,
